@@ -117,7 +117,7 @@ def _f9(case, failure):
             and mp >= 1e12)
 
 
-FINDINGS = {'F9': _f9}
+FINDINGS = {}  # F9 was repaired in /repo (e82a2ef); its witness stays as a regression case
 
 
 def fixed_cases(tier):
@@ -125,7 +125,7 @@ def fixed_cases(tier):
     meas = [dict(Q=np.eye(1), kind='identity', y=np.array([111.54835808]), sigma=100.0, proj=('a',))]
     w = dict(attrs=['a'], shape=[1], meas=meas, N=20.0, structure='single_cell', solver='MD', total=20.0,
              spellings=['dense'], np_seed=1)
-    return [('witness:F9', w)]
+    return [('fixed:F9', w)]
 
 
 TECHNIQUE = 'runtime monitoring: loss of the model returned by the real estimator (recomputed from model.project) compared with a certified constrained least-squares optimum over the full joint (reference model with duality-gap certificate)'
